@@ -301,9 +301,9 @@ def search_manager(ctx, layer="L2"):
             ctx.rec.sample({"trace": self.trace})
 
     if layer == "L2":
-        _machine_run(ctx, M, ctx.n(32, 480) + 1, 5 if ctx.tier == "quick" else 8)
+        _machine_run(ctx, M, ctx.n(32, 200) + 1, 5 if ctx.tier == "quick" else 8)
     else:
-        _machine_run(ctx, M, ctx.n(8, 48) + 1, 3 if ctx.tier == "quick" else 4)
+        _machine_run(ctx, M, ctx.n(8, 24) + 1, 3 if ctx.tier == "quick" else 4)
 
 
 def _pool_l3():
@@ -397,9 +397,9 @@ def search_ghe(ctx):
     HOLDER["ctx"] = ctx
     known = ctx.known
     # a handful of GHE cases per shard (construction is the expensive part), many histories on each
-    cases = ctx.collect(build.ghe_case(months=st.just(12), max_n=64), 24 if ctx.tier == "quick" else 200, label="ghe")
+    cases = ctx.collect(build.ghe_case(months=st.just(12), max_n=64), 24 if ctx.tier == "quick" else 100, label="ghe")
     mine = cases[ctx.shard::ctx.nshards]
-    per_case = max(2, ctx.n(150, 5000) // max(1, len(mine)))
+    per_case = max(2, ctx.n(150, 2500) // max(1, len(mine)))
     for gc in mine:
 
         class G(RuleBasedStateMachine):
